@@ -40,7 +40,7 @@ pub const CAT_GETTERS: usize = 28;
 pub const CAT_DROP: usize = 29;
 
 pub const BASE_WEIGHTS: [u32; N_CAT] = [
-    30, 8, 8, 4, 4, 3, 4, 3, 3, 2, 2, 5, 3, 3, 2, 10, 4, 3, 1, 2, 2, 2, 1, 2, 3, 1, 1, 1, 1, 0,
+    30, 8, 8, 4, 4, 3, 4, 3, 3, 2, 2, 5, 3, 3, 2, 10, 4, 3, 1, 2, 2, 2, 1, 2, 3, 1, 1, 1, 1, 1,
 ];
 
 /// Largest heap size a generated key or value reports (keeps every sum below usize::MAX).
@@ -580,13 +580,20 @@ pub fn gen_op(rng: &mut Rng, gs: &mut GenState, cfg: &Config, pres: &[Option<Obs
                 2 => EndMode::Count,
                 3 => EndMode::Last,
                 4 => EndMode::Fold,
+                5 => EndMode::RFold,
                 _ => EndMode::Drop,
             };
             OpKind::IterScript { kind, script, end, skips }
         }
         CAT_DEBUG => OpKind::DebugFmt,
         CAT_GETTERS => OpKind::Getters,
-        _ => OpKind::DropCache,
+        _ => {
+            if rng.chance(1, 3) {
+                OpKind::DropCacheUnwinding
+            } else {
+                OpKind::DropCache
+            }
+        }
     };
     Op { target, kind, fuse: None }
 }
@@ -621,7 +628,7 @@ pub fn gen_teardown(rng: &mut Rng, pres: &[Option<Obs>; 2]) -> Vec<Op> {
                 let script = (0..len).map(|_| rng.bool()).collect();
                 ops.push(Op { target: t, kind: OpKind::IterScript { kind, script, end: EndMode::Drop, skips: vec![] }, fuse: None });
             }
-            _ => ops.push(Op { target: t, kind: OpKind::DropCache, fuse: None }),
+            _ => ops.push(Op { target: t, kind: if rng.chance(1, 3) { OpKind::DropCacheUnwinding } else { OpKind::DropCache }, fuse: None }),
         }
     }
     ops
